@@ -236,12 +236,27 @@ def run_case(desc):
                 # their tables and their signature entries
                 part = set(rng.sample(sorted(subset),
                                       rng.randint(1, len(subset) - 1)))
-                if removable(spec, [a for a in apps
-                                    if a not in (subset - part)], part) and \
-                        not any(fd.get('to', '').split('.')[0] in part
-                                for a in subset - part
-                                for ms in spec[a].values()
-                                for _n, fd in ms['fields']):
+                # where one stale app refers to another one, purge only the
+                # one referred to (the referrer keeps its tables and rows)
+                pairs = sorted(
+                    (a, fd['to'].split('.')[0]) for a in subset
+                    for ms in spec[a].values() for _n, fd in ms['fields']
+                    if fd.get('to') and fd['to'].split('.')[0] in subset and
+                    fd['to'].split('.')[0] != a)
+                if pairs:
+                    part = {rng.choice(pairs)[1]}
+                kept_refers = any(fd.get('to', '').split('.')[0] in part
+                                  for a in subset - part
+                                  for ms in spec[a].values()
+                                  for _n, fd in ms['fields'])
+                stats['kept_referrer_seen'] = int(kept_refers)
+                # (a stale app that is kept may refer to a purged one - its
+                # rows then keep pointing at the dropped table - in every
+                # other project where that happens)
+                if (not kept_refers and removable(spec, apps, part)) or \
+                        (kept_refers and desc['i'] % 4 != 0):
+                    case['kept_stale_app_refers_to_purged'] = kept_refers
+                    stats['kept_referrer_purges'] = int(kept_refers)
                     purge_args = {'purge_apps': sorted(part)}
                     stats['partial_purges'] = 1
                     case['purged_apps'] = sorted(part)
@@ -252,7 +267,9 @@ def run_case(desc):
                           args=dict(purge_args, force=True,
                                     no_facts_before=True, **rehearse),
                           **rehearse_kw)
-        ctx = {'mode': mode, 'second_run_of_process': bool(rehearse)}
+        ctx = {'mode': mode, 'second_run_of_process': bool(rehearse),
+               'kept_referrer': bool(
+                   case.get('kept_stale_app_refers_to_purged'))}
         if mode != 'delete_model':
             ctx['n_removed_apps'] = len(subset)
             stats['removed_%d_apps' % len(subset)] = 1
